@@ -80,6 +80,46 @@ pub fn boot(exec: &mut Exec, net: &Net, net_idx: usize, kv: &RecKv, seed: u64, o
     Device { matter, task, boot_error, _keep: vec![Box::new(buffers), Box::new(state)] }
 }
 
+/// Start a node from this store content, factory-reset it (Matter level and Interaction Model
+/// level) and return what is left in the store.
+pub fn factory_reset(map: &std::collections::BTreeMap<u16, Vec<u8>>) -> Result<std::collections::BTreeMap<u16, Vec<u8>>, String> {
+    let kv = RecKv::from_map(map.clone());
+    let matter = Owned::from_box(nodes::new_matter());
+    let md = matter.get();
+    let buffers: Owned<MatterBuffers> = Owned::new(MatterBuffers::new());
+    let state: Owned<EthInteractionModelState> = Owned::new(EthInteractionModelState::new(EthNetwork::new_default()));
+    let out: Rc<RefCell<Option<Result<(), String>>>> = Rc::new(RefCell::new(None));
+    let mut exec = Exec::new();
+    {
+        let (b, st) = (buffers.get(), state.get());
+        let kv2 = kv.clone();
+        let out2 = out.clone();
+        exec.spawn("reset", async move {
+            let c = nodes::crypto(SeededRng::new(31));
+            let kvh = md.kv(kv2);
+            let r: Result<(), rs_matter::error::Error> = async {
+                md.startup(&kvh)?;
+                let im = InteractionModel::new(md, &c, b, (NODE, EthSysHandlerBuilder::new().build(SeededRng::new(32))), &kvh, st);
+                im.startup().await?;
+                im.factory_reset().await?;
+                md.factory_reset(&kvh)?;
+                Ok(())
+            }
+            .await;
+            *out2.borrow_mut() = Some(r.map_err(|e| format!("{:?}", e.code())));
+        });
+    }
+    exec.run()?;
+    drop(exec);
+    let r = out.borrow().clone();
+    let _ = (&buffers, &state, &matter);
+    match r {
+        Some(Ok(())) => Ok(kv.map()),
+        Some(Err(e)) => Err(e),
+        None => Err("the reset did not complete".into()),
+    }
+}
+
 // ------------------------------------------------------------------------------------ commands
 
 /// An invoke request with one command whose fields are written by `fields` (into a structure that is
